@@ -93,7 +93,12 @@ def resp(r, it):
 
 
 def script(answers, it):
-    return "(script " + g_list([f"({METH[m]}, {resp(r, it)})" for m, r in sorted(answers.items())]) + ")"
+    fixed = g_list([f"({METH[m]}, {resp(r, it)})" for m, r in sorted(answers.items()) if r[0] != "echo"])
+    echoes = [f"({METH[m]}, {CLS[r[1]]}, {g_list([g_z(i) for i in r[2]])})"
+              for m, r in sorted(answers.items()) if r[0] == "echo"]
+    if not echoes:
+        return f"(script {fixed})"
+    return f"(escript {g_list(echoes)} {fixed})"
 
 
 def backend(spec, it):
